@@ -6,6 +6,7 @@ import (
 	"sort"
 	"strings"
 	"sync"
+	"sync/atomic"
 
 	tq "github.com/facebookincubator/tacquito"
 )
@@ -18,7 +19,7 @@ type CapLog struct {
 	on     bool     // record log calls as trace events
 	Tokens []string // secret tokens to look for (passwords, shared secrets)
 	Gate   func(kind, msg string)
-	Calls  int
+	Calls  int64
 }
 
 func NewCapLog(rec *Rec, on bool) *CapLog { return &CapLog{rec: rec, on: on} }
@@ -45,9 +46,7 @@ func hb(h []string) [][]int {
 }
 
 func (l *CapLog) logf(kind string, format string, args ...interface{}) {
-	l.mu.Lock()
-	l.Calls++
-	l.mu.Unlock()
+	atomic.AddInt64(&l.Calls, 1)
 	var msg string
 	if l.on || l.Gate != nil {
 		msg = fmt.Sprintf(format, args...)
@@ -80,9 +79,7 @@ func (l *CapLog) Debugf(ctx context.Context, format string, args ...interface{})
 
 // Record: a structured record; keys listed in obscure are marked by the same call as to be obscured.
 func (l *CapLog) Record(ctx context.Context, r map[string]string, obscure ...string) {
-	l.mu.Lock()
-	l.Calls++
-	l.mu.Unlock()
+	atomic.AddInt64(&l.Calls, 1)
 	if l.Gate != nil {
 		l.Gate("record", "")
 	}
@@ -120,9 +117,7 @@ func (l *CapLog) Record(ctx context.Context, r map[string]string, obscure ...str
 
 // Set: context fields selected for retention.
 func (l *CapLog) Set(ctx context.Context, fields map[string]string, keys ...tq.ContextKey) context.Context {
-	l.mu.Lock()
-	l.Calls++
-	l.mu.Unlock()
+	atomic.AddInt64(&l.Calls, 1)
 	if l.on {
 		ks := []string{}
 		hitKeys := []string{}
